@@ -144,6 +144,9 @@ def expected_binds(form):
         cells = {}
         for col, v in row.items():
             base = "_".join(col.split("::")[0].split()).lower()
+            if "::" in col and base in ("constraint_message", "required_message") and len(col.split("::")) == 2:
+                cells.setdefault("__translated__", {}).setdefault(LOGIC[base], {})[col.split("::")[1].strip()] = " ".join(v.split())
+                continue
             if "::" in col and base != "bind":
                 continue
             if base in LOGIC:
@@ -187,7 +190,29 @@ def audit(form, xform):
             if cells or bt:
                 probs.append(f"no bind for {p} although the row has logic/type")
             continue
+        translated = cells.pop("__translated__", {})
+        for attr, by_lang in translated.items():
+            # a message with translated cells: the bind refers to itext, and every language shows its own cell (the unsuffixed cell is the default language's)
+            got = b.get(attr)
+            short = attr.split("}")[-1]
+            if not (got or "").startswith("jr:itext("):
+                probs.append(f"{p}: {short} has translated cells {sorted(by_lang)} but the bind carries {got!r} instead of an itext reference")
+                continue
+            tid = re.match(r"jr:itext\('(.*)'\)", got).group(1)
+            want = dict(by_lang)
+            if attr in cells:
+                want.setdefault("default", cells[attr])
+            for tr in model.iter(X + "translation"):
+                lang = tr.get("lang")
+                val = next((("".join(t.itertext())) for t in tr if t.get("id") == tid), None)
+                if lang in want and (val is None or " ".join(val.split()) != want[lang]):
+                    probs.append(f"{p}: {short} in language {lang!r} is {val!r}, the cell says {want[lang]!r}")
+            for lang in want:
+                if lang not in [tr.get("lang") for tr in model.iter(X + "translation")]:
+                    probs.append(f"{p}: {short} has a cell for language {lang!r} but no such translation exists")
         for attr, v in cells.items():
+            if attr in translated:
+                continue
             if attr == "calculate" and trig:
                 if b.get("calculate") is not None:
                     probs.append(f"{p}: calculate emitted on the bind although the row has a trigger")
@@ -250,6 +275,22 @@ def _check(args):
             for r in form["survey"]:
                 if a in r:
                     r[b] = r.pop(a)
+    if i % 4 == 1:
+        # a message given both unsuffixed and per language, with the translated column to the LEFT or to the RIGHT of the unsuffixed one
+        rm = rng_for(seed, PID, "messages", i)
+        cand = [r for r in form["survey"] if r.get("name") and not r["type"].startswith(("begin", "end")) and r["type"].split()[0] in ("integer", "int", "text", "string", "decimal")]
+        for r in cand[:2]:
+            msg = rm.choice(["constraint_message", "required_message"])
+            base_cell = "constraint" if msg == "constraint_message" else "required"
+            r.setdefault(base_cell, ". != ''" if base_cell == "constraint" else "yes")
+            r.pop(msg, None)
+            cells_ = [(f"{msg}::French (fr)", "msg fr"), (msg, "msg plain")]
+            if rm.random() < 0.5:
+                cells_.reverse()
+            if rm.random() < 0.3:
+                cells_.append((f"{msg}::es", "msg es"))
+            for k, v in cells_:
+                r[k] = v
     # multi-word headers written with any white space between the words (the audit reads the canonical key)
     conv = form
     if i % 3 == 0:
